@@ -341,7 +341,6 @@ fn write_bg_span(buffer: &mut String, style: &anstyle::Style, fragment: &str) {
 
     let fill = if bg_color.is_some() { "█" } else { " " };
 
-    let fragment = html_escape::encode_text(fragment);
     let width = fragment.width();
     let fragment = fill.repeat(width);
     let mut classes = Vec::new();
